@@ -100,6 +100,17 @@ pub enum Motif {
         corner: u8,
         boxed: u8,
     },
+    /// Like Battery, but the enemy is stalemated except for the battery's front piece: its
+    /// bishop sits in a corner behind the blocker, its king is boxed in by three of our pawns.
+    /// After our null move the enemy's only legal moves are those of the blocker.
+    BatteryStalemate {
+        black: bool,
+        right_corner: bool,
+        d: u8,
+        kf: u8,
+        p3_right: bool,
+        blocker_kind: u8,
+    },
     /// King near an edge with a few enemy pieces close by: mates and stalemates.
     Net {
         black: bool,
@@ -516,6 +527,25 @@ fn apply_motif(b: &mut Builder, m: &Motif, h: &mut Hints) {
             let bk = [Kind::N, Kind::B, Kind::R, Kind::P, Kind::Q, Kind::N][*blocker_kind as usize % 6];
             b.put(kf + df * bd, kr + dr * bd, bk, them);
         }
+        Motif::BatteryStalemate { black, right_corner, d, kf, p3_right, blocker_kind } => {
+            let us = side_of(*black);
+            let them = us.other();
+            h.stm = Some(us);
+            let r0 = them.back_rank();
+            let u = -us.fwd(); // from their back rank towards the middle of the board
+            let (cf, step) = if *right_corner { (7, -1) } else { (0, 1) };
+            b.put(cf, r0, Kind::B, them);
+            let bk = [Kind::N, Kind::N, Kind::R, Kind::N][*blocker_kind as usize % 4];
+            b.put(cf + step, r0 + u, bk, them);
+            let d = 3 + *d as i32 % 5;
+            b.put(cf + step * d, r0 + u * d, Kind::K, us);
+            // their king away from the corner, boxed in by our pawns
+            let kf = if *right_corner { 2 + *kf as i32 % 2 } else { 4 + *kf as i32 % 2 };
+            b.put(kf, r0, Kind::K, them);
+            b.put(kf, r0 + u, Kind::P, us);
+            b.put(kf, r0 + 2 * u, Kind::P, us);
+            b.put(kf + if *p3_right { 1 } else { -1 }, r0 + 2 * u, Kind::P, us);
+        }
         Motif::Net { black, ksq, pieces, enemy_k } => {
             let us = side_of(*black);
             let them = us.other();
@@ -663,6 +693,8 @@ fn arb_motif() -> impl Strategy<Value = Motif> {
             .prop_map(|(black, file, dir, dk, ds, queen, capturers)| Motif::PreEp { black, file, dir, dk, ds, queen, capturers }),
         1 => (any::<bool>(), 0u8..64, 0u8..8, 0u8..6, 0u8..6, any::<bool>(), 0u8..6, 0u8..4, 0u8..8)
             .prop_map(|(black, ksq, dir, dist, blocker_dist, slider_queen, blocker_kind, corner, boxed)| Motif::Battery { black, ksq, dir, dist, blocker_dist, slider_queen, blocker_kind, corner, boxed }),
+        1 => (any::<bool>(), any::<bool>(), 0u8..5, 0u8..2, any::<bool>(), 0u8..4)
+            .prop_map(|(black, right_corner, d, kf, p3_right, blocker_kind)| Motif::BatteryStalemate { black, right_corner, d, kf, p3_right, blocker_kind }),
         1 => (any::<bool>(), 0u8..6, any::<[u8; 8]>(), vec((any::<u8>(), 0u8..32), 5), 0u8..8)
             .prop_map(|(black, ep_file, pawn_ranks, pieces, enemy_kf)| Motif::Crowded { black, ep_file, pawn_ranks, pieces, enemy_kf }),
     ]
@@ -763,7 +795,7 @@ pub fn arb_case(w_dfrc: u32, w_seed: u32, w_built: u32, max_ops: usize) -> impl 
                     let sel = ing.fm_raw.wrapping_mul(40503);
                     ops.insert(0, Op::Move { sel, bias: 5 });
                 }
-                if matches!(ing.motif, Motif::Battery { .. }) {
+                if matches!(ing.motif, Motif::Battery { .. } | Motif::BatteryStalemate { .. }) {
                     ops.insert(0, Op::Null);
                 }
             }
